@@ -28,6 +28,10 @@ type c14Stream struct {
 	// AtPingAck: open the stream StartNs after the peer acknowledged the PING
 	// that follows the first GOAWAY, so that its HEADERS race with the final GOAWAY
 	AtPingAck bool `json:"at_ping_ack,omitempty"`
+	// EndOnHeaders is never generated: the request ends with END_STREAM on the
+	// HEADERS frame instead of on a DATA frame (legal HTTP/2, unusual gRPC); kept
+	// for a demonstration replay
+	EndOnHeaders bool `json:"end_on_headers,omitempty"`
 }
 
 type c14Conn struct {
@@ -260,6 +264,11 @@ func runC14(e *core.Env, s *c14Scenario) {
 			}
 			// like every gRPC client, end the request with END_STREAM on a DATA frame
 			// (grpc-go never delivers io.EOF to a handler for END_STREAM on HEADERS)
+			if sp.EndOnHeaders {
+				p.Headers(id, ReqFields("/sim.Svc/M", rec.tag), true)
+				p.WaitFor(-1, func() bool { st := p.S[id]; return st.Ended || st.Rst || abort() })
+				return
+			}
 			p.Headers(id, ReqFields("/sim.Svc/M", rec.tag), false)
 			if len(sp.Msgs) == 0 {
 				p.SendData(id, nil, true, 0, abort)
